@@ -125,7 +125,10 @@ func c20(e *Env) {
 					k, v := sy.InFunc(fn, mu.Key), sy.InFunc(fn, mu.Value)
 					ks, vs := k.String(), v.String()
 					okID := k.Op == "field" && k.Name == "AuditInfo.ID" && k.Args[0].String() == vs
-					okCopy := k.Op == "rangekey" && v.Op == "rangeval" && k.Args[0].String() == v.Args[0].String() && !strings.Contains(ks, ".Upstream")
+					// copying key and value of an entry of another ID-keyed map (a parameter, or the result of the
+					// collector itself) - but not of the Upstream map, whose keys are file paths
+					okCopy := k.Op == "rangekey" && v.Op == "rangeval" && k.Args[0].String() == v.Args[0].String() &&
+						!(k.Args[0].Op == "field" && strings.HasSuffix(k.Args[0].Name, ".Upstream"))
 					ob1k.Check(okID || okCopy, e.where(mu), "m["+trunc(ks, 50)+"] = "+trunc(vs, 50), "entry m["+ks+"] = "+vs+" is not keyed by the stored record's ID: records are lost or listed several times (the keys of Upstream are file paths, several of which can carry the same record)")
 				}
 			}
@@ -202,30 +205,33 @@ func c20(e *Env) {
 					continue
 				}
 				found = true
-				// find Before/After calls on StartTime fields
+				// find Before/After calls on StartTime fields, anywhere in the comparator's call tree
 				okCmp := false
 				bad := ""
-				for _, cb := range cmp.Blocks {
-					for _, ci := range cb.Instrs {
-						cc, ok := ci.(*ssa.Call)
-						if !ok || cc.Call.StaticCallee() == nil {
-							continue
-						}
-						switch cc.Call.StaticCallee().String() {
-						case "(time.Time).Before", "(time.Time).After":
-							a0 := sy.InFunc(cmp, cc.Call.Args[0]).String()
-							a1 := sy.InFunc(cmp, cc.Call.Args[1]).String()
-							iName, jName := "$"+cmp.Params[0].Name(), "$"+cmp.Params[1].Name()
-							first := strings.Contains(a0, "["+iName+"]") && strings.Contains(a1, "["+jName+"]")
-							second := strings.Contains(a0, "["+jName+"]") && strings.Contains(a1, "["+iName+"]")
-							isBefore := strings.HasSuffix(cc.Call.StaticCallee().String(), "Before")
-							if !strings.Contains(a0, ".StartTime") || !strings.Contains(a1, ".StartTime") {
-								bad = "compares " + a0 + " with " + a1
-							} else if (first && isBefore) || (second && !isBefore) {
-								okCmp = true
-							} else {
-								bad = "orders descending: " + cc.Call.StaticCallee().Name() + "(" + a0 + ", " + a1 + ")"
-							}
+				gc := e.XG(cmp)
+				if gc == nil {
+					continue
+				}
+				csy := e.fsym()
+				for _, cn := range gc.Nodes {
+					cc, ok := cn.Instr.(*ssa.Call)
+					if !ok || cc.Call.StaticCallee() == nil || cn.Kind == core.KAfter {
+						continue
+					}
+					switch cc.Call.StaticCallee().String() {
+					case "(time.Time).Before", "(time.Time).After":
+						a0 := csy.InCtx(cn.Ctx, cc.Call.Args[0]).String()
+						a1 := csy.InCtx(cn.Ctx, cc.Call.Args[1]).String()
+						iName, jName := "$"+cmp.Params[0].Name(), "$"+cmp.Params[1].Name()
+						first := strings.Contains(a0, "["+iName+"]") && strings.Contains(a1, "["+jName+"]")
+						second := strings.Contains(a0, "["+jName+"]") && strings.Contains(a1, "["+iName+"]")
+						isBefore := strings.HasSuffix(cc.Call.StaticCallee().String(), "Before")
+						if !strings.Contains(a0, ".StartTime") || !strings.Contains(a1, ".StartTime") {
+							bad = "compares " + a0 + " with " + a1
+						} else if (first && isBefore) || (second && !isBefore) {
+							okCmp = true
+						} else {
+							bad = "orders descending: " + cc.Call.StaticCallee().Name() + "(" + a0 + ", " + a1 + ")"
 						}
 					}
 				}
@@ -262,7 +268,10 @@ func passesAccumulator(c *ssa.Call, fn *ssa.Function) bool {
 func (e *Env) c20Converters(cmdPkg *ssa.Package, flatten, sortfn *ssa.Function) {
 	r := e.R
 	p := e.P
-	sy := p.NewSymbolizer(nil)
+	// helpers are looked through, the two pipeline stages themselves stay visible as calls
+	sy := p.NewSymbolizer(func(f *ssa.Function) bool {
+		return (f.Object() == nil || !f.Object().Exported()) && f != flatten && f != sortfn && f.Pkg == cmdPkg
+	})
 	// template constants of the package
 	consts := map[string]string{}
 	for name, m := range cmdPkg.Members {
@@ -316,13 +325,13 @@ func (e *Env) c20Converters(cmdPkg *ssa.Package, flatten, sortfn *ssa.Function) 
 		}
 		// pipeline: some value in fn is sortfn(flatten(...))
 		okPipe := false
-		for _, b := range fn.Blocks {
-			for _, in := range b.Instrs {
-				if c, ok := in.(*ssa.Call); ok && c.Call.StaticCallee() == sortfn && sortfn != nil {
-					arg := sy.InFunc(fn, c.Call.Args[0])
+		if gf := e.XG(fn); gf != nil {
+			for _, n := range gf.Nodes {
+				if c, ok := n.Instr.(*ssa.Call); ok && c.Call.StaticCallee() == sortfn && sortfn != nil && n.Kind != core.KAfter {
+					arg := sy.InCtx(n.Ctx, c.Call.Args[0])
 					if flatten != nil && arg.Op == "call" && arg.Callee != nil && (arg.Callee == flatten || p.Reachable(arg.Callee)[flatten]) {
 						okPipe = true
-						obP.OK(e.where(c), core.FuncName(sortfn)+"("+core.FuncName(flatten)+"(record))")
+						obP.OK(gf.Where(n), core.FuncName(sortfn)+"("+core.FuncName(flatten)+"(record))")
 					}
 				}
 			}
@@ -359,15 +368,23 @@ func (e *Env) c20Converters(cmdPkg *ssa.Package, flatten, sortfn *ssa.Function) 
 							}
 							// fields used by the formatter
 							used := map[string]bool{}
-							for _, fb := range c.Call.StaticCallee().Blocks {
-								for _, fi := range fb.Instrs {
-									if v, ok := fi.(ssa.Value); ok {
-										if f := fieldOfLoad(v); f != nil {
-											used[f.Name()] = true
+							fmtFns := []*ssa.Function{c.Call.StaticCallee()}
+							for rf := range p.Reachable(c.Call.StaticCallee()) {
+								if rf.Pkg == cmdPkg && rf != c.Call.StaticCallee() && rf.Blocks != nil {
+									fmtFns = append(fmtFns, rf)
+								}
+							}
+							for _, ff := range fmtFns {
+								for _, fb := range ff.Blocks {
+									for _, fi := range fb.Instrs {
+										if v, ok := fi.(ssa.Value); ok {
+											if f := fieldOfLoad(v); f != nil {
+												used[f.Name()] = true
+											}
 										}
-									}
-									if fa, ok := fi.(*ssa.FieldAddr); ok {
-										used[fieldOfAddr(fa).Name()] = true
+										if fa, ok := fi.(*ssa.FieldAddr); ok {
+											used[fieldOfAddr(fa).Name()] = true
+										}
 									}
 								}
 							}
